@@ -529,6 +529,8 @@ def obs_of(trace, conn_filter=None):
     for e in trace["ev"]:
         if conn_filter is not None and e["conn"] != conn_filter:
             continue
+        if e["n"] == 0 and e["op"] == "feed" and not e["writes"] and not e["chg"] and not e["closed"] and not e["raised"]:
+            continue        # an idle period (receive time-out) in which nothing happened is not an input event of the comparison
         obs.append({"w": [w["bytes"] for w in e["writes"] if w["conn"] == e["conn"]], "chg": e["chg"], "closed": e["closed"]})
     return obs
 
@@ -570,6 +572,10 @@ def gen_c17(tier, rng):
                 # whole frames per event is valid for every front-end; random boundaries only for streams
                 sched = schedule_for(case, "syncTcp" if split else "syncUdp", rng, "random" if split else ("multi" if k % 4 == 1 else "frames"))
             case.schedule = sched
+            if split and fe == "syncTcp" and k % 2 == 0:
+                # the threaded TCP handler sees receive time-outs (idle periods between frames) the event-driven front-ends never
+                # see: what it answers afterwards must still be what they answer to the same bytes
+                case.schedule = add_idle(case, sched, rng)
             t = run_case(case)
             runs.append({"fe": fe, "obs": obs_of(t)})
         rel.append({"id": "r%d" % k, "mode": "interchange", "kind": kind, "runs": runs, "reqs": [[u, t, list(p)] for u, t, p in reqs]})
